@@ -5,7 +5,7 @@ from checks.enc_common import line_differential, replay_lines
 LEVEL = "proof"
 THEOREMS = ["svlv_shape", "svlv_encoding", "svlv_padding", "svlv_roundtrip", "svlv_roundtrip_words",
             "svlv_fromWords_canon", "svlv_arm_independent", "vcd_bit", "vcd_bits_msb_first",
-            "cosim_window_partial", "cosim_window_full_false", "svlv_injective"]
+            "cosim_window_partial", "cosim_window_full_false", "svlv_injective", "svlv_fromWords_injective"]
 
 
 def run(ctx):
